@@ -55,6 +55,30 @@ pub struct SCase {
     pub payload: Payload,
     pub ops: Vec<Op>,
     pub extra_polls: usize,
+    /// the consumer behaves like hyper: once `is_end_stream()` is true it does not poll again
+    #[serde(default)]
+    pub stop_at_eos: bool,
+    /// the final drop of the writer happens while its thread is unwinding from a panic
+    #[serde(default)]
+    pub unwind_writer_drop: bool,
+    /// `DropBody` happens while the consumer's thread is unwinding from a panic
+    #[serde(default)]
+    pub unwind_body_drop: bool,
+}
+
+impl Default for SCase {
+    fn default() -> SCase {
+        SCase { gzip: None, chunk: 1, payload: Payload::Hash, ops: vec![], extra_polls: 0, stop_at_eos: false, unwind_writer_drop: false, unwind_body_drop: false }
+    }
+}
+
+/// Drops `x` while the current thread is unwinding from a panic (`std::thread::panicking()` is true
+/// inside its destructor), as happens to locals of a handler that panics.
+pub fn drop_while_unwinding<T>(x: T) {
+    let _ = std::panic::catch_unwind(std::panic::AssertUnwindSafe(move || {
+        let _x = x;
+        panic!("intentional panic of the harness: drop during unwinding");
+    }));
 }
 
 pub fn payload_byte(p: Payload, i: u64) -> u8 {
@@ -111,6 +135,7 @@ struct Interp {
     t: Trace<HarnessError>,
     terminal_seen: bool,
     received: Vec<u8>,
+    stop_at_eos: bool,
 }
 
 impl Interp {
@@ -119,7 +144,10 @@ impl Interp {
         let body = self.body.as_mut()?;
         let h = body.size_hint();
         let eos = body.is_end_stream();
-        let ev = if poll {
+        let ev = if poll && self.stop_at_eos && eos && !self.terminal_seen {
+            // a consumer that honours is_end_stream() (hyper) takes this as the end and never polls
+            Ev::End
+        } else if poll {
             let mut cx = Context::from_waker(&self.waker);
             match crate::panics::guard(|| body.as_mut().poll_frame(&mut cx)) {
                 Err(m) => Ev::Panic(m),
@@ -219,6 +247,7 @@ pub fn execute_with(c: &SCase, light: bool) -> SRun {
         },
         terminal_seen: false,
         received: Vec::new(),
+        stop_at_eos: c.stop_at_eos,
     };
     let gz = c.gzip.is_some();
     let decode = gz && !light;
@@ -442,7 +471,14 @@ pub fn execute_with(c: &SCase, light: bool) -> SRun {
                 }
             }
             Op::DropBody => {
-                if it.body.take().is_some() {
+                let b = it.body.take();
+                let had = b.is_some();
+                if c.unwind_body_drop {
+                    drop_while_unwinding(b);
+                } else {
+                    drop(b);
+                }
+                if had {
                     body_dropped = true;
                     if !gz {
                         unflushed_since_drop = model_buf > 0;
@@ -468,7 +504,11 @@ pub fn execute_with(c: &SCase, light: bool) -> SRun {
 
     // Drop the writer, then drain.
     let had_abort_or_drop = c.ops.iter().any(|o| matches!(o, Op::Abort | Op::DropBody));
-    drop(w.take());
+    if c.unwind_writer_drop {
+        drop_while_unwinding(w.take());
+    } else {
+        drop(w.take());
+    }
     if it.body.is_some() {
         if !it.terminal_seen {
             let last = it.poll_until_pending();
@@ -668,7 +708,25 @@ pub fn payload_strategy() -> BoxedStrategy<Payload> {
     prop_oneof![Just(Payload::Hash), Just(Payload::Runs), Just(Payload::Mixed), Just(Payload::Zeros)].boxed()
 }
 
+/// Adds the consumer / drop-mode dimensions to generated histories: a quarter with a consumer that
+/// stops polling once `is_end_stream()` is true, an eighth each with the writer / the body dropped
+/// during a panic unwind.
+pub fn with_flags(s: BoxedStrategy<SCase>) -> BoxedStrategy<SCase> {
+    (s, any::<u8>())
+        .prop_map(|(mut c, f)| {
+            c.stop_at_eos = f & 3 == 0;
+            c.unwind_writer_drop = f & 0x1c == 4;
+            c.unwind_body_drop = f & 0xe0 == 0x20;
+            c
+        })
+        .boxed()
+}
+
 pub fn case_strategy(gzip: bool, with_faults: bool, max_ops: usize) -> BoxedStrategy<SCase> {
+    with_flags(case_strategy_plain(gzip, with_faults, max_ops))
+}
+
+fn case_strategy_plain(gzip: bool, with_faults: bool, max_ops: usize) -> BoxedStrategy<SCase> {
     (chunk_strategy(gzip), 1u32..=9, payload_strategy(), 0usize..=4)
         .prop_flat_map(move |(chunk, level, payload, extra_polls)| {
             (vec(op_strategy(chunk, with_faults, gzip), 0..max_ops), Just((chunk, level, payload, extra_polls)))
@@ -678,7 +736,7 @@ pub fn case_strategy(gzip: bool, with_faults: bool, max_ops: usize) -> BoxedStra
             chunk,
             payload,
             ops,
-            extra_polls,
+            extra_polls, ..Default::default()
         })
         .boxed()
 }
@@ -686,6 +744,10 @@ pub fn case_strategy(gzip: bool, with_faults: bool, max_ops: usize) -> BoxedStra
 /// Histories made of a short pattern repeated many times (the shape of event-stream style
 /// producers: small write + flush, again and again), followed by a few more operations.
 pub fn repeated_pattern_strategy(gzip: bool) -> BoxedStrategy<SCase> {
+    with_flags(repeated_pattern_strategy_plain(gzip))
+}
+
+fn repeated_pattern_strategy_plain(gzip: bool) -> BoxedStrategy<SCase> {
     (chunk_strategy(gzip), 1u32..=9, payload_strategy(), 0usize..=2)
         .prop_flat_map(move |(chunk, level, payload, extra_polls)| {
             (
@@ -717,7 +779,7 @@ pub fn repeated_pattern_strategy(gzip: bool) -> BoxedStrategy<SCase> {
                 chunk,
                 payload,
                 ops,
-                extra_polls,
+                extra_polls, ..Default::default()
             }
         })
         .boxed()
@@ -726,6 +788,10 @@ pub fn repeated_pattern_strategy(gzip: bool) -> BoxedStrategy<SCase> {
 /// Two repeated patterns with a few operations in between (many short flushed chunks, one full
 /// chunk, many short ones again, ...), then a random suffix.
 pub fn two_phase_pattern_strategy(gzip: bool) -> BoxedStrategy<SCase> {
+    with_flags(two_phase_pattern_strategy_plain(gzip))
+}
+
+fn two_phase_pattern_strategy_plain(gzip: bool) -> BoxedStrategy<SCase> {
     (chunk_strategy(gzip), 1u32..=9, payload_strategy(), 0usize..=2)
         .prop_flat_map(move |(chunk, level, payload, extra_polls)| {
             (
@@ -771,7 +837,7 @@ pub fn two_phase_pattern_strategy(gzip: bool) -> BoxedStrategy<SCase> {
                 }
             }
             ops.extend(suffix);
-            SCase { gzip: if gzip { Some(level) } else { None }, chunk, payload, ops, extra_polls }
+            SCase { gzip: if gzip { Some(level) } else { None }, chunk, payload, ops, extra_polls, ..Default::default() }
         })
         .boxed()
 }
@@ -779,6 +845,10 @@ pub fn two_phase_pattern_strategy(gzip: bool) -> BoxedStrategy<SCase> {
 /// Histories that begin with a large backlog the consumer has not polled (64 KiB to 5 MiB, in one
 /// `write_all` or in several writes), continue with a few operations and end with the drop.
 pub fn backlog_strategy(gzip: bool) -> BoxedStrategy<SCase> {
+    with_flags(backlog_strategy_plain(gzip))
+}
+
+fn backlog_strategy_plain(gzip: bool) -> BoxedStrategy<SCase> {
     (
         prop_oneof![2 => proptest::sample::select(&[64usize, 1000, 4096, 65_536][..]), 1 => chunk_strategy(gzip)],
         proptest::sample::select(&[65_536u32, (1 << 20) - 4096, 1 << 20, (1 << 20) + 4097, (2 << 20) + 3, 5 << 20][..]),
@@ -808,7 +878,7 @@ pub fn backlog_strategy(gzip: bool) -> BoxedStrategy<SCase> {
                 }
                 k += 1;
             }
-            SCase { gzip: if gzip { Some(level) } else { None }, chunk, payload: Payload::Hash, ops, extra_polls }
+            SCase { gzip: if gzip { Some(level) } else { None }, chunk, payload: Payload::Hash, ops, extra_polls, ..Default::default() }
         })
         .boxed()
 }
@@ -819,7 +889,7 @@ pub fn small_writes_then_flush(gzip: Option<u32>, chunk: usize, s: u32, n: usize
     let mut ops: Vec<Op> = std::iter::repeat(Op::Write(s)).take(n).collect();
     ops.push(Op::FlushThenDrain);
     ops.push(Op::Write(1));
-    SCase { gzip, chunk, payload: Payload::Hash, ops, extra_polls: 1 }
+    SCase { gzip, chunk, payload: Payload::Hash, ops, extra_polls: 1, ..Default::default() }
 }
 
 /// All op sequences of length `n` over the small alphabet for chunk size `c`.
@@ -854,7 +924,7 @@ pub fn enumerate_ops(c: usize, n: usize, f: &mut dyn FnMut(&[Op])) {
 pub const META_C08: Meta = Meta {
     id: "C08",
     level: "exploration",
-    rule: "Stateful/model-based: operation histories over {write(n), write_all(n), write_vectored(a, b), flush, flush-then-drain, poll-until-pending, poll(k), sample} with n in {0,1,c-1,c,c+1,2c,3c,random}, then drop, interpreted against streaming_body (identity coding) and an in-memory model of accepted bytes. Exhaustive for all histories of <= 4 operations (thorough 5) over the 19-op alphabet with chunk sizes {1,2,3,4,7}; proptest vec(op, 0..40) for chunk sizes up to 65536 with size classes {boundary sizes, nearly a full chunk, small fractions of a chunk, hundreds of chunks}, 'repeated-pattern' histories (1-3 operations repeated 2-64 times, or two patterns with a few operations between them), 'backlog' histories (64 KiB to 5 MiB written before the consumer polls, in one write_all or several writes), and for every n up to 420 (thorough 1400): n writes of s in {1,21,50,63} bytes, flush, drain, one more byte. Payload bytes are a running position hash so order and duplication are visible. Non-trivial = >= 2 writes with a partial acceptance or a chunk boundary crossed, and a poll between two producer operations; distinct by fingerprint of history.",
+    rule: "Stateful/model-based: operation histories over {write(n), write_all(n), write_vectored(a, b), flush, flush-then-drain, poll-until-pending, poll(k), sample} with n in {0,1,c-1,c,c+1,2c,3c,random}, then drop, interpreted against streaming_body (identity coding) and an in-memory model of accepted bytes, by a consumer that polls to the end and by one that stops polling once is_end_stream() is true (as hyper does), with the writer dropped normally or while its thread unwinds from a panic. Exhaustive for all histories of <= 4 operations (thorough 5) over the 19-op alphabet with chunk sizes {1,2,3,4,7}; proptest vec(op, 0..40) for chunk sizes up to 65536 with size classes {boundary sizes, nearly a full chunk, small fractions of a chunk, hundreds of chunks}, 'repeated-pattern' histories (1-3 operations repeated 2-64 times, or two patterns with a few operations between them), 'backlog' histories (64 KiB to 5 MiB written before the consumer polls, in one write_all or several writes), and for every n up to 420 (thorough 1400): n writes of s in {1,21,50,63} bytes, flush, drain, one more byte. Payload bytes are a running position hash so order and duplication are visible. Non-trivial = >= 2 writes with a partial acceptance or a chunk boundary crossed, and a poll between two producer operations; distinct by fingerprint of history.",
     assumptions: &["single-threaded interleaving of producer operations and consumer polls (schedules are C10's subject)"],
 };
 
@@ -910,14 +980,20 @@ pub fn run_c08(cx: &Cx) -> Acc {
     let units: Vec<(usize, usize)> = [1usize, 2, 3, 4, 7].iter().flat_map(|c| (0..=max_n).map(move |n| (*c, n))).collect();
     acc.merge(par_units(cx, "exhaustive-short", &units, true, "every history of n operations over the 19-op alphabet for chunk sizes {1,2,3,4,7}", |cx, &(c, n), acc| {
         enumerate_ops(c, n, &mut |ops| {
-            let case = SCase {
-                gzip: None,
-                chunk: c,
-                payload: Payload::Hash,
-                ops: ops.to_vec(),
-                extra_polls: 1,
-            };
-            acc.run_case(cx, "exhaustive-short", &case, |acc| check_stream(&case, acc, false));
+            // plain; with a consumer that stops at is_end_stream(); with the writer dropped during an unwind
+            for (stop_at_eos, unwind_writer_drop) in [(false, false), (true, false), (false, true)] {
+                let case = SCase {
+                    gzip: None,
+                    chunk: c,
+                    payload: Payload::Hash,
+                    ops: ops.to_vec(),
+                    extra_polls: 1,
+                    stop_at_eos,
+                    unwind_writer_drop,
+                    ..Default::default()
+                };
+                acc.run_case(cx, "exhaustive-short", &case, |acc| check_stream(&case, acc, false));
+            }
         });
     }));
     let n = cx.tier.pick(1u64, 20u64);
@@ -942,14 +1018,19 @@ pub fn run_c09(cx: &Cx) -> Acc {
     let units: Vec<(usize, u32, usize)> = [1usize, 5].iter().flat_map(|c| [1u32, 6, 9].into_iter().flat_map(move |l| (0..=max_n).map(move |n| (*c, l, n)))).collect();
     acc.merge(par_units(cx, "exhaustive-short", &units, true, "every history of n operations over the 19-op alphabet, chunk sizes {1,5}, levels {1,6,9}", |cx, &(c, level, n), acc| {
         enumerate_ops(c, n, &mut |ops| {
-            let case = SCase {
-                gzip: Some(level),
-                chunk: c,
-                payload: if n % 2 == 0 { Payload::Runs } else { Payload::Hash },
-                ops: ops.to_vec(),
-                extra_polls: 1,
-            };
-            acc.run_case(cx, "exhaustive-short", &case, |acc| check_stream(&case, acc, true));
+            for (stop_at_eos, unwind_writer_drop) in [(false, false), (true, false), (false, true)] {
+                let case = SCase {
+                    gzip: Some(level),
+                    chunk: c,
+                    payload: if n % 2 == 0 { Payload::Runs } else { Payload::Hash },
+                    ops: ops.to_vec(),
+                    extra_polls: 1,
+                    stop_at_eos,
+                    unwind_writer_drop,
+                    ..Default::default()
+                };
+                acc.run_case(cx, "exhaustive-short", &case, |acc| check_stream(&case, acc, true));
+            }
         });
     }));
     let n = cx.tier.pick(1u64, 20u64);
@@ -991,7 +1072,7 @@ pub fn run_c09(cx: &Cx) -> Acc {
                         }
                     })
                     .collect(),
-                extra_polls: 1,
+                extra_polls: 1, ..Default::default()
             })
         },
         |c, acc| check_stream(c, acc, true),
@@ -1092,7 +1173,7 @@ pub fn run_for_c12_c20(cx: &Cx, c20: bool) -> Acc {
                     chunk: 2,
                     payload: Payload::Hash,
                     ops: v,
-                    extra_polls: 1 + at % 4,
+                    extra_polls: 1 + at % 4, ..Default::default()
                 };
                 acc.run_case(cx, "streaming-abort-positions", &case, |acc| check_trace(&case, acc, c20));
             }
